@@ -29,7 +29,7 @@ CHECKS = {
               "pools, with repeated types and duplicated structures. Exploration; the grid sub-part is exhaustive for its finite scope."),
         design='4/C02'),
     'C04': dict(
-        technique="Hypothesis property-based testing: every pre-terminal of a generated ruleset is expanded by the real guesser with stdout captured and compared (Counter) with a model-side expansion; Markov levels against an independent OMEN enumerator",
+        technique="Hypothesis property-based testing: every pre-terminal of a generated ruleset is expanded by the real guesser with stdout captured and compared (Counter) with a model-side expansion; Markov levels against an independent OMEN enumerator; every pre-terminal also under drawn guess limits (reported count == lines written)",
         text=("Generated rulesets (groups of any size, all U/L masks, adjacent alpha words, alpha at start/middle/end, spaces, "
               "non-ASCII and non-BMP values, Markov levels incl. tied probabilities): for every pre-terminal of the model the lines "
               "written by the real create_guesses must equal the model's product of groups with masks applied, the returned count "
@@ -79,7 +79,7 @@ CHECKS = {
               "flagged run's pre-terminals and language. Exploration."),
         design='4/C14'),
     'C16': dict(
-        technique="Hypothesis property-based testing with scripted uniform draws: breakpoint sweep of the piecewise-constant sampler against exact cumulative sums, scripted in-group choices, end-to-end language/limit/reproducibility checks (in-process and CLI); CLI runs with --load histories, named sessions and different hash seeds",
+        technique="Hypothesis property-based testing with scripted uniform draws: breakpoint sweep of the piecewise-constant sampler against exact cumulative sums, scripted in-group choices, end-to-end language/limit/reproducibility checks (in-process and CLI); CLI runs with --load histories, named sessions and different hash seeds, incl. rulesets that list a value twice",
         text=("The random source seen by the sampler is replaced by a script, so the draw can be placed exactly on, one ulp around and "
               "between every cumulative-probability breakpoint of the base list and of every variable of generated count-normalised "
               "rulesets (and of sub-normalised base lists): the selected structure/group must be the interval containing the draw, "
@@ -88,7 +88,7 @@ CHECKS = {
               "reproduce itself in-process and across CLI processes. Exploration."),
         design='4/C16'),
     'C17': dict(
-        technique="Hypothesis property-based testing: real prince_ling.main() unbounded / to a file / with every --size N, against a model-side language of (type, value, capitalisation) with exact-rational probabilities; metamorphic size-N == prefix(N); CLI byte comparison; prince_ling.py as a subprocess under generated invocation contexts (relative / absolute -o, existing output files)",
+        technique="Hypothesis property-based testing: real prince_ling.main() unbounded / to a file / with every --size N, against a model-side language of (type, value, capitalisation) with exact-rational probabilities; metamorphic size-N == prefix(N); CLI byte comparison; prince_ling.py as a subprocess under generated invocation contexts (relative / absolute -o, existing output files); tied PRINCE types compared across processes with different hash seeds",
         text=("Generated rulesets with a PRINCE base list (all terminal types incl. e-mail/website), both all_lower settings: the "
               "unbounded list must be the model language with one word per derivation in non-increasing model probability, the "
               "file written with --output must be byte-identical to stdout, and --size N must give exactly the first N words for "
@@ -96,7 +96,7 @@ CHECKS = {
               "generated ruleset is enumerated."),
         design='4/C17'),
     'C20': dict(
-        technique="Hypothesis property-based testing: real edit_rules.edit_rules() on generated rulesets x generated option sets, independent filter oracle (own tokenizer and label arithmetic), SHA-256 tree comparison, guess lengths from the real guesser on the edited ruleset; edit_rules.py as a subprocess under generated invocation contexts (non-ASCII names, ascii-only or unwritable stdout: nothing half-written)",
+        technique="Hypothesis property-based testing: real edit_rules.edit_rules() on generated rulesets x generated option sets, independent filter oracle (own tokenizer and label arithmetic), SHA-256 tree comparison, guess lengths from the real guesser on the edited ruleset; edit_rules.py as a subprocess under generated invocation contexts (non-ASCII names, ascii-only or unwritable stdout: nothing half-written); base lists in and out of probability order",
         text=("Generated rulesets and option combinations (length bounds, terminal sets, regexes, --copy): the edited base list must be "
               "a sub-sequence of the original lines with identical text, every structure the independent oracle says passes must "
               "stay and every one that fails must go, no other file (and with --copy nothing in the source) may change, and every "
@@ -147,7 +147,7 @@ CHECKS = {
               "the probabilities of all emitted guesses must sum to 1. Exploration, bounded to languages of 40000 guesses."),
         design='4/C03'),
     'C07': dict(
-        technique="Exhaustive enumeration of all accepted code points (round trip real writer -> real guesser loader and real scorer loader, batched with bisection) plus Hypothesis property-based differential testing of trained rulesets across trainer counters, guesser tables, scorer tables, OMEN loaders and config.ini lists; re-training into a used directory, CRLF / unterminated files, numeric shapes of the probability column",
+        technique="Exhaustive enumeration of all accepted code points (round trip real writer -> real guesser loader and real scorer loader, batched with bisection) plus Hypothesis property-based differential testing of trained rulesets across trainer counters, guesser tables, scorer tables, OMEN loaders and config.ini lists; re-training into a used directory, CRLF / unterminated files, numeric shapes of the probability column; utf-8-sig rulesets through the loaders that can read them",
         text=("Every one of the ~1.11 million code points the input filter accepts (and every byte of the single-byte encodings) is "
               "written at four positions by the real rules writer and must be read back unchanged, with the exact probability, by both "
               "real loaders - this sub-part is exhaustive. Generated training lists in five encodings are trained and every value, "
@@ -156,7 +156,7 @@ CHECKS = {
               "Exploration with an exhaustive sub-part."),
         design='4/C07'),
     'C11': dict(
-        technique="Hypothesis property-based 3-way differential testing (trainer's find_omen_level vs scorer's OmenScorer.parse vs guesser tables + real MarkovCracker membership) on rulesets produced by the real trainer, with generated and mutated candidate strings",
+        technique="Hypothesis property-based 3-way differential testing (trainer's find_omen_level vs scorer's OmenScorer.parse vs guesser tables + real MarkovCracker membership) on rulesets produced by the real trainer, with generated and mutated candidate strings; the level PCFGPasswordScorer.parse reports for every candidate incl. e-mail / web-site strings",
         text=("Generated training lists (small alphabets, n-gram 2-5, several encodings) are trained; for training passwords, "
               "generator output and mutated candidates (out-of-alphabet characters at each position, lengths n-1, n, n+1, 21, 22, "
               "empty) the trainer's level, the scorer's level and the level by the guesser's loaded tables must be the same number "
